@@ -667,7 +667,7 @@ theorem budget_rate_may_overshoot :
 /-- With Go's binary64 arithmetic (`goMulF64`), a fee function created with a starting rate
     not above the ceiling, and whose float→int64 conversions do not overflow
     (`NoOverflow`; implied e.g. by `end - start ≤ 2^29`, see `noOverflow_of_small`), is `Sound`:
-    no float hypothesis remains in `go_rate_monotone` / `go_rate_capped` / `go_ceiling_by_deadline`. -/
+    no float hypothesis remains in `go_rate_monotone_partial` / `go_rate_capped_partial`. -/
 theorem go_sound {maxFeeRate relay : Int} {ct : Nat} {so est : Option Int} {f : FeeFn}
     (_hnew : newLinear goMulF64 maxFeeRate ct so est relay = .ok f)
     (hle : f.start ≤ f.end_) (hno : NoOverflow f) : Sound goMulF64 f :=
@@ -684,13 +684,6 @@ theorem go_rate_capped_partial {maxFeeRate relay : Int} {ct : Nat} {so est : Opt
     (hle : f.start ≤ f.end_) (hno : NoOverflow f) (ops : List Op) :
     f.start ≤ (f.run goMulF64 ops).cur ∧ (f.run goMulF64 ops).cur ≤ maxFeeRate :=
   rate_capped_partial hnew (go_sound hnew hle hno) ops
-
-theorem go_ceiling_by_deadline {maxFeeRate relay : Int} {ct : Nat} {so est : Option Int} {f : FeeFn}
-    (hnew : newLinear goMulF64 maxFeeRate ct so est relay = .ok f)
-    (deadline : Int) (heights : List Int) (h : Int) (hh : deadline - h ≤ 1) :
-    (f.run goMulF64 ((heights ++ [h]).map (fun x => Op.ict (calcCurrentConfTarget x deadline)))).cur
-      = maxFeeRate :=
-  ceiling_by_deadline_blocks hnew deadline heights h hh
 
 /-- WITNESS that the hypothesis `start ≤ end` of the `_partial` theorems cannot be dropped, i.e.
     that the full property fails on the code's arithmetic: a caller-supplied starting rate of
@@ -710,37 +703,139 @@ theorem go_noOverflow_of_small {maxFeeRate relay : Int} {ct : Nat} {so est : Opt
   noOverflow_of_small hnew hle hsmall hct
 
 /-- The hypothesis-free statement for the path the sweeper takes when no starting rate is
-    supplied: an ESTIMATED start (any estimator answer that does not error), a positive ceiling
-    of at most `2^27` sat/kw, a non-negative relay fee and `2 ≤ confTarget < 1008`. Then for
-    every history: the rate never decreases, stays in `[start, ceiling]`, and `start` is at
-    least the relay fee unless the ceiling itself is below it. -/
+    supplied, inside the property's domain `0 ≤ relay ≤ ceiling`: an ESTIMATED start (any
+    estimator answer that does not error, ANY conf target `≥ 2` incl. `≥ MaxBlockTarget`), a
+    positive ceiling of at most `2^27` sat/kw.  Then for every history: the rate never decreases,
+    stays in `[start, ceiling]`, and `start` is at least the relay fee.  (`start ≤ end` and
+    `NoOverflow` are PROVED here for Go's arithmetic; conf targets `≤ 1` start at the ceiling by
+    `ceiling_at_creation`.) -/
 theorem go_estimated {maxFeeRate relay : Int} {ct : Nat} {est : Option Int} {f : FeeFn}
     (hnew : newLinear goMulF64 maxFeeRate ct none est relay = .ok f)
-    (hct : 2 ≤ ct) (hct' : ct < maxBlockTarget) (hmax : 0 < maxFeeRate) (hmax' : maxFeeRate ≤ 2 ^ 27)
-    (hrelay : 0 ≤ relay) (ops : List Op) (op : Op) :
+    (hct : 2 ≤ ct) (hct' : ct < 2 ^ 32) (hmax : 0 < maxFeeRate) (hmax' : maxFeeRate ≤ 2 ^ 27)
+    (hrelay : 0 ≤ relay) (hdom : relay ≤ maxFeeRate) (ops : List Op) (op : Op) :
     (f.run goMulF64 ops).cur ≤ ((f.run goMulF64 ops).step goMulF64 op).cur ∧
     f.start ≤ (f.run goMulF64 ops).cur ∧ (f.run goMulF64 ops).cur ≤ maxFeeRate ∧
-    (relay ≤ maxFeeRate → relay ≤ f.start) := by
-  obtain ⟨hend, _, _, hcase⟩ := newLinear_spec hnew
-  obtain ⟨_, hb⟩ := estimated_start_bounds hnew hct
-  obtain ⟨hfloor, hcap⟩ := hb hct'
-  have hle : f.start ≤ f.end_ := by rw [hend]; exact hcap (by omega)
-  have hstart0 : 0 ≤ f.start := by
-    rcases hcase with ⟨h1, _⟩ | ⟨_, _, _, hso⟩
-    · omega
-    · rcases hso with hso | ⟨_, hest⟩
-      · cases hso
-      · unfold estimateFeeRate at hest
-        have : ¬ (ct ≥ maxBlockTarget) := by omega
-        simp only [this, if_false] at hest
-        rcases (estimate_bounds hest).1 with h | h
-        · omega
-        · omega
-  have hno := noOverflow_of_small hnew hle (by rw [hend]; omega)
-    (by unfold maxBlockTarget at hct'; omega)
+    relay ≤ f.start := by
+  obtain ⟨hend, _, _, _⟩ := newLinear_spec hnew
+  obtain ⟨hbig, hb⟩ := estimated_start_bounds hnew hct
+  have hfl : relay ≤ f.start ∧ f.start ≤ maxFeeRate := by
+    by_cases hc : ct ≥ maxBlockTarget
+    · rw [hbig hc]; exact ⟨Int.le_refl _, hdom⟩
+    · obtain ⟨hfloor, hcap⟩ := hb (by omega)
+      exact ⟨hfloor (Or.inl hdom), hcap (by omega)⟩
+  have hle : f.start ≤ f.end_ := by rw [hend]; exact hfl.2
+  have hno := noOverflow_of_small hnew hle (by rw [hend]; omega) hct'
   have hs := sound_of_noOverflow hle hno
   obtain ⟨c1, c2⟩ := rate_capped_partial hnew hs ops
-  exact ⟨rate_monotone_partial hnew hs ops op, c1, c2, fun h => hfloor (Or.inl h)⟩
+  exact ⟨rate_monotone_partial hnew hs ops op, c1, c2, hfl.1⟩
+
+/-- Relay floor for a CALLER-SUPPLIED starting rate (`_partial`: needs `Sound`, i.e. `start ≤ end`):
+    the code applies no floor to it (the start is used as is), so the floor holds exactly when the
+    caller's rate is itself at least the relay fee — then every later rate is too. -/
+theorem caller_start_floor_partial {M : MulDiv} {maxFeeRate relay s0 : Int} {ct : Nat}
+    {est : Option Int} {f : FeeFn}
+    (hnew : newLinear M maxFeeRate ct (some s0) est relay = .ok f) (hs : Sound M f)
+    (hct : 2 ≤ ct) (ops : List Op) :
+    f.start = s0 ∧ (relay ≤ s0 → relay ≤ (f.run M ops).cur) := by
+  obtain ⟨_, _, _, hcase⟩ := newLinear_spec hnew
+  have hst : f.start = s0 := by
+    rcases hcase with ⟨h1, _⟩ | ⟨_, _, _, hso⟩
+    · omega
+    · rcases hso with hso | ⟨hso, _⟩
+      · simp only [Option.some.injEq] at hso; exact hso.symm
+      · cases hso
+  refine ⟨hst, fun h => ?_⟩
+  have := (rate_capped_partial hnew hs ops).1
+  omega
+
+/-! ## D. the publisher at the deadline -/
+
+/-- POSITIVE half of "reaches its ceiling by the deadline" at the publisher level: at a block with
+    `deadline − height ≤ 1`, if the record's rate is still below the ceiling and a tx at the
+    ceiling rate can be built within the budget (`prepareSweepTx` succeeds with `fee ≤ Budget`)
+    and the mempool accepts it, then `handleFeeBumpTx` hands exactly that tx to the wallet for
+    broadcast. -/
+theorem feeBump_publishes_at_ceiling (M : MulDiv) (r : Req) (rc : Rec) (height : Int) (mp : List Ans)
+    (pub : Ans) (f : FeeFn) (t : Tx) (hf : rc.ff = some f) (ht : rc.tx = some t) (htop : Top f)
+    (hd : r.deadline - height ≤ 1) (hlt : f.cur < f.end_) (p : Prep)
+    (hp : prepareSweepTx r.inputs f.end_ r.wTx height r.dust r.extra = .ok p)
+    (hb : p.fee ≤ r.budget) (hmp : (nextAns mp).1 = .ok) :
+    (true, buildTx r.inputs height r.extra p) ∈ (feeBump M r rc height mp pub).emitted := by
+  have hct := confTarget_near_deadline hd
+  have hpos : f.pos < f.width := by
+    by_contra hc
+    have := htop (by omega)
+    omega
+  have hnp : f.width ≤ f.newPos (calcCurrentConfTarget height r.deadline) := by
+    unfold FeeFn.newPos; split <;> omega
+  have hinc : f.increaseFeeRate M (calcCurrentConfTarget height r.deadline) =
+      .ok ({ f with pos := f.newPos (calcCurrentConfTarget height r.deadline), cur := f.end_ }, true) := by
+    unfold FeeFn.increaseFeeRate
+    have h1 : ¬ (f.newPos (calcCurrentConfTarget height r.deadline) ≤ f.pos) := by omega
+    simp only [h1, if_false]
+    unfold FeeFn.increaseTo
+    have h2 : ¬ (f.pos ≥ f.width) := by omega
+    simp only [h2, if_false, rateAt_of_ge M f hnp]
+    have h3 : decide (f.end_ > f.cur) = true := by simp; omega
+    rw [h3]
+  have hchk : createAndCheckTx r f.end_ height (nextAns mp).1 =
+      (.ok (buildTx r.inputs height r.extra p), some (buildTx r.inputs height r.extra p)) := by
+    unfold createAndCheckTx
+    have hnb : ¬ (p.fee > r.budget) := by omega
+    simp only [hp, hnb, if_false, hmp]
+  unfold feeBump
+  simp only [hf, ht, hinc, Bool.not_true, Bool.false_eq_true, if_false, hchk, emitChecked]
+  cases ansErr pub with
+  | none => simp
+  | some e => cases e <;> simp
+
+/-- NEGATIVE half (model-level witness of the failure found by the monitor clause
+    `no-tx-at-ceiling-by-deadline`, reproduced on the real `TxPublisher` by the harness case
+    `witness=1`): eight 100 000-sat P2WKH inputs (weight 2350), budget 3007, MaxFeeRate 250 000,
+    relay fee 253, deadline 503.  `NewSatPerKWeight` rounds the budget rate 1279.57 UP to the
+    ceiling 1280 whose fee 3008 exceeds the budget by one: the bump at height 502 = deadline − 1
+    fails with `ErrNotEnoughBudget`, nothing is handed to the wallet and the record is dropped —
+    the last tx offered is the one of height 501 at 767 sat/kw.  So "a tx at the ceiling is
+    offered no later than one block before the deadline" is FALSE for the code. -/
+theorem no_tx_at_ceiling_by_deadline_witness :
+    let r : Req := ⟨List.replicate 8 ⟨100000, none, none⟩, 3007, 250000, 503, none, 2350, 2350, 294, none⟩
+    let o0 := initialBroadcast goMulF64 r 500 (some 253) 253 [] .ok
+    let o1 := feeBump goMulF64 r o0.rcd 501 [] .ok
+    let o2 := feeBump goMulF64 r o1.rcd 502 [] .ok
+    maxFeeRateAllowed goMulF64 r.budget r.wBudget r.maxFeeRate = 1280 ∧
+    feeForWeight 1280 r.wTx = 3008 ∧
+    o0.res.event = .published ∧ o1.res.event = .replaced ∧ o1.res.rate = 767 ∧
+    o2.res.event = .failed ∧ o2.res.err = some .budget ∧ o2.res.rate = 1280 ∧
+    o2.emitted = [] ∧ o2.rcd.live = false := by
+  decide
+
+/-- Provenance of the outputs: besides the change output (never below dust, see `GoodTx`), a sweep
+    tx only contains the outputs the inputs commit to and the aux sweeper's extra output, with
+    exactly the values handed in.  Hence "no output below dust" for those is a precondition on
+    the request (the aggregator's `filterInputs` drops inputs with a dust required output). -/
+theorem outputs_provenance (inputs : List Inp) (height : Int) (extra : Option Int) (p : Prep)
+    (o : OutKind × Int) (ho : o ∈ (buildTx inputs height extra p).outs) :
+    (o.1 = OutKind.required ∧ ∃ i ∈ inputs, i.req = some o.2) ∨
+    (o.1 = OutKind.extra ∧ extra = some o.2) ∨
+    (o.1 = OutKind.change ∧ p.change = some o.2) := by
+  simp only [buildTx, List.mem_append, List.mem_filterMap] at ho
+  rcases ho with (⟨i, hi, hio⟩ | ho) | ho
+  · left
+    cases hr : i.req with
+    | none => rw [hr] at hio; cases hio
+    | some v =>
+      rw [hr] at hio
+      simp only [Option.map_some, Option.some.injEq] at hio
+      rw [← hio]
+      exact ⟨rfl, i, hi, hr⟩
+  · right; left
+    cases hx : extra with
+    | none => rw [hx] at ho; cases ho
+    | some v => rw [hx] at ho; simp only [List.mem_singleton] at ho; rw [ho]; exact ⟨rfl, rfl⟩
+  · right; right
+    cases hc : p.change with
+    | none => rw [hc] at ho; cases ho
+    | some v => rw [hc] at ho; simp only [List.mem_singleton] at ho; rw [ho]; exact ⟨rfl, rfl⟩
 
 /-! ## non-vacuity -/
 
